@@ -104,6 +104,19 @@ PROPS = {
             "'state intact afterwards' is covered by the digest clause of C01's monitor on the same traces",
         ],
     },
+    "C10": {
+        "modules": ["Hannibal.Props.C10", "Hannibal.Props.C10Current"],
+        "theorems": ["Hannibal.C10_holds", "Hannibal.C10_current"],
+        "cases": {"quick": {"C10": 1500}, "thorough": {"C10": 20000, "C07": 3000}},
+        "assumptions": COMMON_ASSUMPTIONS + [
+            "tick/wake-up correspondence and 'all timer tasks ended by quiescence, none leaked' (monC10q) are judged "
+            "on real traces only (executor task census)",
+            "'exactly k deliveries after k periods on an idle actor': the proved part gives at most (spacing >= period); "
+            "'at least' is a liveness clause checked on quiescent real traces by monC10q's arm/tick accounting",
+            "virtual clock replaces tokio::time::sleep; the model forbids the clock to jump past an armed deadline "
+            "(validated by acceptance of real traces in which the executor fires timers in deadline order)",
+        ],
+    },
     "C12": {
         "modules": ["Hannibal.Props.C12"],
         "theorems": ["Hannibal.C12_holds", "Hannibal.C12_current", "Hannibal.C12_state",
